@@ -181,6 +181,10 @@ theorem enumName_safe : NameTextSafe RespSpec.enumName := by
   unfold NameTextSafe labelsOfText
   decide +kernel
 
+/-- non-vacuity of `DryRunSound`, premise true: the dry-run encode of the D28 repair accepts the example service … -/
+theorem exSvcSafe_dryRun : (encodesFirst true exSvcSafe).toOption.isSome = true := by decide +kernel
+
+/-- … and its own records are encodable -/
 theorem exSvcSafe_safe : SvcSafe id 4500 exSvcSafe := by
   have henum := enumName_safe
   have hT : NameTextSafe exSvcSafe.type := exTypeA_safe
@@ -228,7 +232,7 @@ theorem C15_populated_instance :
     intro b hb
     simp only [exPopulate, List.mem_cons, List.not_mem_nil, or_false] at hb
     rcases hb with rfl | rfl | rfl | rfl | rfl
-    · exact exSvcSafe_safe
+    · exact fun _ => exSvcSafe_safe
     · show TypesSafe [exTypeA]
       intro t ht; simp only [List.mem_singleton] at ht; subst ht; exact exTypeA_safe
     · trivial
@@ -309,6 +313,22 @@ variable (lower : String → String) (possible : String → List String) (ettl :
 variable (attrib : Question → Rec → Bool) (orc : Route.Oracle) (sz : QueryGen.QOut → Nat)
 variable {υ ω : Type} (U : UserL υ ω) (upd : Ms → List (Rec × Option Rec) → Nat → Bool) (Iυ : υ → Prop)
 
+/-- **`PtrNotCached`** — the hypothesis of the two announcement theorems that limits them to *first* announcements (review 3): the
+cache does not hold the announced pointer (same name, class, alias).  Inside the theorem: a pointer announced for the first time, and a
+pointer announced again **after a goodbye** (the record manager removes a goodbye'd record from the cache in the goodbye's own block, so
+the next announcement finds nothing).  **Outside**: a pointer that is still in the cache — alive, or *run out by time but not yet purged*
+(the 10 s cleanup has not fired), or left there by a datagram that carried the goodbye and a live copy together (seeded defect
+C15-seed2's class; canary 2b and `corpus/C15/ptr-goodbye-then-live-cached.json` observe it on the implementation).  For such a pointer
+the record manager hands the browser `(record, old)` with `old ≠ None`, and the browser — model `Browser.updateOne` and code alike —
+enqueues nothing for a live record: no `Added` is due, because none was ever taken back (`Removed` is enqueued only by a goodbye or by
+the purge, and both remove the entry).  The theorems make no statement for that case; what holds there (the entry is refreshed, the
+browser's last callback for it stays `Added`) is checked on the implementation only. -/
+def PtrNotCached (lower : String → String) (c : Cache) (w : Rec) (now : Ms) : Prop :=
+  Cache.getUnique lower c (floorPtr (w.setLife now w.ttl)) = none
+
+/-- non-vacuity: an instance that has heard nothing yet -/
+example (w : Rec) (now : Ms) : PtrNotCached id ({} : Cache) w now := rfl
+
 /-- **An announcement sent after any closed history still reaches its browsers** (`_partial`: `UserOK`, `ApiSafe`, `Mono`).
 After ANY history of blocks of every kind: a valid response of at most 8966 bytes that the duplicate guard does not drop and that
 carries a pointer record alive after the PTR TTL floor, not cached, whose owner matches a type `t` browsed by a registered browser
@@ -323,7 +343,7 @@ theorem C15_announcement_reaches_browser_closed_partial (hU : UserOK U Iυ) (bs 
     {w : Rec} (hw : w ∈ recsOf ⟨data, now, p, none⟩) {alias t : String}
     (hty : w.type = Gen.typePtr) (hrd : w.rdata = .ptr alias)
     (hlive : (floorPtr (w.setLife now w.ttl)).isExpired now = false)
-    (hnew : Cache.getUnique lower s1.down.cache (floorPtr (w.setLife now w.ttl)) = none)
+    (hnew : PtrNotCached lower s1.down.cache w now)
     {b : Browser} (hb : b ∈ s1.down.browsers) (ht : t ∈ b.types) (hposs : (possible w.name).contains t = true) :
     ∃ s' out i, recv (down lower possible ettl attrib orc U upd) s1 data addr port now draw = .ok (s', out, .response) ∧
       Out.down (COut.callback i ⟨.added, t, alias⟩) ∈ out := by
